@@ -1,0 +1,105 @@
+//go:build verif
+
+package state
+
+import (
+	"context"
+
+	"github.com/oasisprotocol/oasis-core/go/common/crypto/hash"
+	"github.com/oasisprotocol/oasis-core/go/common/crypto/signature"
+	"github.com/oasisprotocol/oasis-core/go/common/keyformat"
+)
+
+// VerifRawIndexes is a raw dump of the registry's secondary indexes, exactly as stored.
+// It exists only under the "verif" build tag (verification harness, property C17).
+//
+// Index keys are stored hashed, so they are reported as hashes; the harness maps them back
+// through the finite universe of keys it generated.
+type VerifRawIndexes struct {
+	// KeyMap is keyMapKeyFmt: hash(sub-key) -> raw node ID.
+	KeyMap map[hash.Hash]signature.PublicKey
+	// ConsAddr is nodeByConsAddressKeyFmt: consensus address (hex) -> raw node ID.
+	ConsAddr map[string]signature.PublicKey
+	// NodeByEntity is signedNodeByEntityKeyFmt: (hash(entity ID), hash(node ID)).
+	NodeByEntity [][2]hash.Hash
+	// RuntimeByEntity is runtimeByEntityKeyFmt: (hash(entity ID), hash(runtime ID)).
+	RuntimeByEntity [][2]hash.Hash
+	// NodeStatus is nodeStatusKeyFmt: hash(node ID) (presence only).
+	NodeStatus []hash.Hash
+}
+
+// VerifDumpIndexes iterates over the secondary index key spaces and returns their raw contents.
+func (s *ImmutableState) VerifDumpIndexes(ctx context.Context) (*VerifRawIndexes, error) {
+	out := &VerifRawIndexes{
+		KeyMap:   make(map[hash.Hash]signature.PublicKey),
+		ConsAddr: make(map[string]signature.PublicKey),
+	}
+
+	it := s.state.NewIterator(ctx)
+	defer it.Close()
+
+	for it.Seek(keyMapKeyFmt.Encode()); it.Valid(); it.Next() {
+		var hKey keyformat.PreHashed
+		if !keyMapKeyFmt.Decode(it.Key(), &hKey) {
+			break
+		}
+		var id signature.PublicKey
+		if err := id.UnmarshalBinary(it.Value()); err != nil {
+			return nil, err
+		}
+		out.KeyMap[hash.Hash(hKey)] = id
+	}
+	if it.Err() != nil {
+		return nil, it.Err()
+	}
+
+	for it.Seek(nodeByConsAddressKeyFmt.Encode()); it.Valid(); it.Next() {
+		var addr []byte
+		if !nodeByConsAddressKeyFmt.Decode(it.Key(), &addr) {
+			break
+		}
+		var id signature.PublicKey
+		if err := id.UnmarshalBinary(it.Value()); err != nil {
+			return nil, err
+		}
+		out.ConsAddr[string(addr)] = id
+	}
+	if it.Err() != nil {
+		return nil, it.Err()
+	}
+
+	for it.Seek(signedNodeByEntityKeyFmt.Encode()); it.Valid(); it.Next() {
+		var hEnt, hNode keyformat.PreHashed
+		if !signedNodeByEntityKeyFmt.Decode(it.Key(), &hEnt, &hNode) {
+			break
+		}
+		out.NodeByEntity = append(out.NodeByEntity, [2]hash.Hash{hash.Hash(hEnt), hash.Hash(hNode)})
+	}
+	if it.Err() != nil {
+		return nil, it.Err()
+	}
+
+	for it.Seek(runtimeByEntityKeyFmt.Encode()); it.Valid(); it.Next() {
+		var hEnt, hRt keyformat.PreHashed
+		if !runtimeByEntityKeyFmt.Decode(it.Key(), &hEnt, &hRt) {
+			break
+		}
+		out.RuntimeByEntity = append(out.RuntimeByEntity, [2]hash.Hash{hash.Hash(hEnt), hash.Hash(hRt)})
+	}
+	if it.Err() != nil {
+		return nil, it.Err()
+	}
+
+	for it.Seek(nodeStatusKeyFmt.Encode()); it.Valid(); it.Next() {
+		var hNode keyformat.PreHashed
+		if !nodeStatusKeyFmt.Decode(it.Key(), &hNode) {
+			break
+		}
+		out.NodeStatus = append(out.NodeStatus, hash.Hash(hNode))
+	}
+	if it.Err() != nil {
+		return nil, it.Err()
+	}
+
+	return out, nil
+}
